@@ -13,6 +13,8 @@ for sid in sorted(os.listdir(S)):
     caught = ", ".join("%s (%d signatures)" % (k.split("/")[0], v["violations"]) for k, v in sorted(det.items()) if v["exit"] == 1) or "MISSED"
     hist = m.get("history")
     if hist:
+        if "NEUTRALISED" in hist:
+            caught = "no longer a violation"
         caught += "; " + hist
     if "confirmation" in m:
         suite = "green; demo fails with / passes without" if m["confirmation"].get("confirmed") else "not confirmed"
